@@ -41,7 +41,8 @@ RULE = ('every or-tree shape with n leaves x every duplicate-free annotation pla
         '{readable,optimized,legacy_optimized}, plus every (listed entrypoint, argument) judged pair -> full -> pair; '
         'non-trivial = distinct (type, full value) whose selected leaf is unannotated, or that passes an annotated '
         'inner/root node, or whose type uses a name other than plain a/b (reserved or specially spelled)')
-BOUND = {'quick': 'plain spelling: n<=4 leaves (all 1+1+2+5 shapes); the 5 other spellings: n<=3 leaves; 5 annotation choices per '
+BOUND = {'quick': 'plain spelling: n<=4 leaves (all 1+1+2+5 shapes); the 5 other spellings and the plain spelling over the lazy-storage '
+                  'leaf palette (big_map literal, pair holding one, option): n<=3 leaves; 5 annotation choices per '
                   'node without duplicates, 1-2 values per leaf, 3 modes',
          'thorough': 'plain spelling: n<=5 leaves (all 1+1+2+5+14 shapes); the 5 other spellings: n<=4 leaves; same alphabet'}
 ASSUMPTIONS = ['mc/ref/entrypoints.py states Tezos entrypoint rules (selftest: node /entrypoints answers of 20 mainnet contracts + recorded calls)',
@@ -63,7 +64,9 @@ SPELLINGS = [
     ('0', '_'),                       # leading digit, bare underscore
     ('Default', '_root'),             # case variant of a reserved name; the library's own fallback name for the root
     ('x' * 31, 'x' * 30 + '.'),       # maximal length, differing in the last character only
+    ('a', 'b'),                       # plain again, over the LAZY_LEAVES palette (arguments holding big_map literals / ids, tickets aside)
 ]
+LAZY_SP = len(SPELLINGS) - 1
 MODES = ['readable', 'optimized', 'legacy_optimized']
 TZ1 = 'tz1VSUr8wwNhLAzempoch5d6hLRiTh8Cjcjb'
 
@@ -79,6 +82,16 @@ LEAVES = [
                {'prim': 'Pair', 'args': [{'prim': 'Right', 'args': [{'string': ''}]}, {'int': '0'}]}]),
     ({'prim': 'unit'}, [{'prim': 'Unit'}]),
     ({'prim': 'address'}, [{'string': TZ1}]),
+]
+
+
+BIG_MAP = {'prim': 'big_map', 'args': [{'prim': 'nat'}, {'prim': 'string'}]}
+ELTS = [{'prim': 'Elt', 'args': [{'int': '1'}, {'string': 'a'}]}, {'prim': 'Elt', 'args': [{'int': '2'}, {'string': 'b'}]}]
+# leaves whose values go through the lazy-storage rendering (lazy_diff): a big_map literal, empty and not, bare and inside a pair
+LAZY_LEAVES = [
+    (BIG_MAP, [ELTS, []]),
+    ({'prim': 'pair', 'args': [{'prim': 'nat'}, BIG_MAP]}, [{'prim': 'Pair', 'args': [{'int': '5'}, ELTS[:1]]}]),
+    ({'prim': 'option', 'args': [{'prim': 'int'}]}, [{'prim': 'None'}]),
 ]
 
 
@@ -111,7 +124,8 @@ def build(shape, annots, sp=0):
     def go(s):
         name = next(it)
         if s == 'L':
-            node = json.loads(json.dumps(LEAVES[next(leaf_no) % len(LEAVES)][0]))
+            pal = LAZY_LEAVES if sp == LAZY_SP else LEAVES
+            node = json.loads(json.dumps(pal[next(leaf_no) % len(pal)][0]))
         else:
             node = {'prim': 'or', 'args': [go(s[0]), go(s[1])]}
         if name is not None:
@@ -164,7 +178,7 @@ def values_of(node):
         return ([{'prim': 'Left', 'args': [v]} for v in values_of(node['args'][0])]
                 + [{'prim': 'Right', 'args': [v]} for v in values_of(node['args'][1])])
     bare = ref.strip_field_annot(node)
-    for ty, vals in LEAVES:
+    for ty, vals in LEAVES + LAZY_LEAVES:
         if ty == bare:
             return vals
     raise AssertionError(node)
